@@ -280,6 +280,9 @@ def concrete_exponents(E):
     if isinstance(E, (list, tuple)) and E and all(isinstance(r, tuple) and r and all(isinstance(x, int) and x == 0 for x in r) for r in E) \
             and len(E) == 1:
         return ExpMat(1, len(E[0]), lambda t: mono_zero, Region("fresh"), dt_int)
+    if isinstance(E, list) and len(E) == 1 and isinstance(E[0], MonoRow):
+        row = E[0]
+        return ExpMat(1, row.D, lambda t: row.m, Region("fresh"), dt_int)      # [one exponent row]
     return E
 
 
@@ -565,6 +568,7 @@ def postprocess_apply(ex, E, Cin, names, rc_arg, rn_arg, node):
         # (fresh boolean == ground term) that let facts about the rows they came from be instantiated
         t0, s0 = ctx.int("dup_t"), ctx.int("dup_s")
         ctx.assume(z3.And(0 <= t0, t0 < s0, s0 < E2.n, meq(E2.row(t0), E2.row(s0), E2.D)))
+        ex.dup_matrix = E2
         for h in getattr(ex, "pair_hints", []):
             ctx.assume(ctx.bool("hint") == h(t0, s0))
         raise_("PolynomialConstructionError", node, "duplicate rows")
